@@ -124,15 +124,46 @@ class Obl:
         if core.mentions_uninit(ta):
             self.failed.append((what + ': value depends on uninitialised memory', None))
             return False
-        r = self.ctx.check(ta != te)
-        if r == 'unsat':
-            self.discharged += 1
+        # polynomial normal form of the difference: identical polynomials need no search
+        try:
+            d = z3.simplify(ta - te, som=True)
+            if z3.is_rational_value(d) and d.numerator_as_long() == 0:
+                self.discharged += 1
+                return True
+        except z3.Z3Exception:
+            pass
+        self.ctx.solver.push()
+        self.ctx.solver.set('timeout', 3000)
+        try:
+            r = self.ctx.check(ta != te)
+            if r == 'unsat':
+                self.discharged += 1
+                return True
+            if r == 'sat':
+                self.failed.append((what + ': %s != %s' % (short(ta), short(te)), self.ctx.solver.model()))
+                return False
+            # nonlinear and undecided: fix every non-payload variable (position ...) to a value the path
+            # condition allows; the remaining question is linear in the payload.  A model is a genuine
+            # counterexample; unsat only says "equal at this value", which stays inconclusive.
+            if self.ctx.check() == 'sat':
+                m = self.ctx.solver.model()
+                subs = []
+                for name, e in core.consts_of(z3.And(ta == ta, te == te)).items():
+                    if not name.startswith('w_'):
+                        subs.append((e, m.eval(e, model_completion=True)))
+                if subs:
+                    ta2 = z3.substitute(ta, *subs)
+                    te2 = z3.substitute(te, *subs)
+                    self.ctx.solver.add(*[a == b for a, b in subs])
+                    r2 = self.ctx.check(ta2 != te2)
+                    if r2 == 'sat':
+                        self.failed.append((what + ': %s != %s' % (short(ta), short(te)), self.ctx.solver.model()))
+                        return False
+            self.inconclusive += 1
             return True
-        if r == 'sat':
-            self.failed.append((what + ': %s != %s' % (short(ta), short(te)), self.ctx.solver.model()))
-            return False
-        self.inconclusive += 1
-        return True
+        finally:
+            self.ctx.solver.pop()
+            self.ctx.solver.set('timeout', 10000)
 
     def holds(self, cond, what):
         """A boolean condition that must hold for all values on this path."""
